@@ -1,5 +1,6 @@
 import TR.Lemmas.Reconnect
 import TR.Lemmas.ReconnectHistory
+import TR.Lemmas.ReconnectChain
 /-!
 # C16 — reconnect retries only connection failures, a bounded number of times
 
@@ -185,6 +186,50 @@ theorem poll_runs_to_pending_or_done (cfg : Cfg) (c : Nat) (st : Caller) (w : Sh
     trans cfg c (pollCaller cfg c st w).1 (pollCaller cfg c st w).2 = none :=
   pollCaller_complete cfg c st w
 
+/-! ### errors with a `source()` chain: the error itself is classified, never its causes
+
+The wrapped service's error may have a cause chain (`errK>J>…` in the op language: kind `K`, `source()` of kind `J`, …).
+"Retries only after errors its predicate classifies as connection failures": the predicate is asked about the error
+the service returned. The chain-level input language `COp` reaches the transitions only through `COp.head`. -/
+
+/-- **Causes are irrelevant**: two histories whose errors have the same heads (the same kinds of the errors
+themselves) — whatever their `source()` chains are, at any depth — give the same run: the same inner calls, retries,
+sleeps, results, event log and published states. -/
+theorem causes_are_irrelevant (cfg : Cfg) (ops ops' : List COp) (h : ops.map COp.head = ops'.map COp.head) :
+    runC cfg ops = runC cfg ops' := by
+  unfold runC; rw [h]
+
+/-- in particular every error behaves exactly like the same error without any cause -/
+theorem causes_can_be_stripped (cfg : Cfg) (ops : List COp) : runC cfg (ops.map stripOp) = runC cfg ops :=
+  causes_are_irrelevant cfg _ _ (map_head_stripOp ops)
+
+/-- **An error the predicate rejects ends the request at once, whatever its causes**: for any state, when the inner
+call in flight ends with an error of kind `kd` that the predicate does not classify as a connection failure, the
+request finishes with `ServiceError` wrapping it in that very transition — no state change, no back-off, no further
+call — for every cause chain `causes`, including chains in which every cause is one the predicate accepts. -/
+theorem rejected_error_finishes_whatever_its_causes (cfg : Cfg) (c : Nat) (st : Caller) (w : Shared) (k doneAt kd : Nat)
+    (causes : List Nat) (hk : cfg.reconn kd = false) (ht : ¬ w.now < doneAt) :
+    classify cfg kd causes = false ∧
+    transCalling cfg c st w k doneAt (COut.err kd causes).head
+      = some (finish c (.service kd k) st (emit [.done c k (.err kd)] w)) :=
+  rejected_finishes cfg c st w k doneAt kd causes hk ht
+
+/-- **Retries only after errors the predicate itself accepts, over error chains**: in any chain-level history, every
+inner call of a request other than its latest one ended with an error whose OWN kind the predicate accepts (an
+accepted cause under a rejected head never leads to a retry), and a request whose latest call ended with an error
+whose own kind the predicate rejects has, if it has a result, the result `ServiceError` wrapping that error. -/
+theorem retries_only_accepted_heads (cfg : Cfg) (ops : List COp) (c : Nat) (st : Caller)
+    (h : lookup (runC cfg ops).callers c = some st) :
+    (∀ p ∈ st.calls.tail, ∃ kd, p.step.out = .err kd ∧ cfg.reconn kd = true) ∧
+    (∀ hd tl kd r, st.calls = hd :: tl → hd.step.out = .err kd → cfg.reconn kd = false → st.result = some r →
+        r = .service kd hd.k) := by
+  refine ⟨retries_only_reconnectable cfg _ c st h, ?_⟩
+  intro hd tl kd r hc ho hk hr
+  obtain ⟨hd', tl', hc', he, _⟩ := returns_first_success_or_wraps_last cfg _ c st r h hr
+  rw [hc] at hc'
+  cases hc'
+  exact expected_rejected cfg _ _ kd r ho hk he
+
 /-! ## non-vacuity -/
 
 private def cfgA : Cfg :=
@@ -233,5 +278,19 @@ example :
 /-- A randomised policy: an observed delay inside the envelope is accepted, one outside is refused. -/
 example : (Policy.jitter 3000000 10000000 50).allowed 1 8833565 = true
     ∧ (Policy.jitter 3000000 10000000 50).allowed 1 9100000 = false := by decide
+
+/-- Error chains, predicate = {kind 1}: `err2>1` (rejected head, accepted cause) is NOT retried: `ServiceError` after
+one call, the state untouched; `err2>3>1` (accepted cause two levels down) likewise; `err1>2` (accepted head,
+rejected cause) IS retried. -/
+example :
+    let s := runC { cfgA with policy := .fixed 0 }
+      [.arrive 1 [⟨0, .err 2 [1]⟩, ⟨0, .ok⟩], .poll 1 [], .probe,
+       .arrive 2 [⟨0, .err 2 [3, 1]⟩, ⟨0, .ok⟩], .poll 2 [],
+       .arrive 3 [⟨0, .err 1 [2]⟩, ⟨0, .ok⟩], .poll 3 []]
+    (lookup s.callers 1).map (fun st => (st.result, st.calls.length)) = some (some (.service 2 0), 1)
+      ∧ REv.probe .disconnected ∈ s.sh.log
+      ∧ (lookup s.callers 2).map (fun st => (st.result, st.calls.length)) = some (some (.service 2 1), 1)
+      ∧ (lookup s.callers 3).map (fun st => (st.result, st.calls.length)) = some (some (.ok 3), 2) := by
+  decide
 
 end TR.Props.C16
